@@ -46,6 +46,9 @@ func NewSparseInt32Vector(indices []int, values []int32, n int) *SparseInt32Vect
   }
   r := nilSparseInt32Vector(n)
   for i, k := range indices {
+    if k < 0 {
+      panic("negative index")
+    }
     if k >= n {
       panic("index larger than vector dimension")
     }
